@@ -2029,7 +2029,12 @@ class WSGIRequest:
                     return self._stream.read(size)
 
         self.content = StreamWrapper(self._environ["wsgi.input"])
-        self.match_info = {"path_info": environ["PATH_INFO"]}
+        # PEP-3333 hands us PATH_INFO decoded as iso-8859-1
+        self.match_info = {
+            "path_info": environ["PATH_INFO"]
+            .encode("iso-8859-1")
+            .decode(DEFAULT_ENCODING, "surrogateescape")
+        }
 
     @property
     def can_read_body(self):
